@@ -62,6 +62,8 @@ pub enum Ep {
     GwUpgrade,
     GwMigrate,
     GwRotateBypass,
+    /// bypass rotation whose proof comes from an older, still retained signer set
+    GwRotateBypassOlderSet,
     GasTransferOwnership,
     GasUpgrade,
     GasMigrate,
@@ -88,12 +90,13 @@ pub enum Ep {
     TokOwnerMintFrom,
 }
 
-pub const EPS: [Ep; 28] = [
+pub const EPS: [Ep; 29] = [
     Ep::GwTransferOwnership,
     Ep::GwTransferOperatorship,
     Ep::GwUpgrade,
     Ep::GwMigrate,
     Ep::GwRotateBypass,
+    Ep::GwRotateBypassOlderSet,
     Ep::GasTransferOwnership,
     Ep::GasUpgrade,
     Ep::GasMigrate,
@@ -124,7 +127,7 @@ impl Ep {
         use Ep::*;
         match self {
             GwTransferOwnership | GwUpgrade | GwMigrate => Role::GwOwner,
-            GwTransferOperatorship | GwRotateBypass => Role::GwOperator,
+            GwTransferOperatorship | GwRotateBypass | GwRotateBypassOlderSet => Role::GwOperator,
             GasTransferOwnership | GasUpgrade | GasMigrate => Role::GasOwner,
             GasCollectFees | GasRefund => Role::GasCollector,
             OpsTransferOwnership | OpsUpgrade | OpsMigrate | OpsAddOperator | OpsRemoveOperator => Role::OpsOwner,
@@ -223,6 +226,12 @@ fn prepare(s: &Sys, ep: Ep) {
         Ep::GasCollectFees | Ep::GasRefund => {
             s.fund(&s.gas.address, 1000);
         }
+        Ep::GwRotateBypassOlderSet => {
+            // an honest rotation first, so that the initial set is older but still retained (retention 2)
+            let newer = simple_set(40);
+            let proof = s.set.proof(&s.env, &digest(&s.domain, &s.set.hash(), &newer.rotation_data_hash()), s.set.full_mask());
+            s.gw.rotate_signers(&newer.to_soroban(&s.env), &proof, &false);
+        }
         Ep::OpsRemoveOperator => {
             s.ops.add_operator(&s.pool[EXTRA_A]);
             s.ops.add_operator(&s.pool[EXTRA_B]);
@@ -268,6 +277,12 @@ fn call(s: &Sys, ep: Ep, alt: bool) -> bool {
             let proof = s.set.proof(env, &digest(&s.domain, &s.set.hash(), &dh), s.set.full_mask());
             ok!(s.gw.try_rotate_signers(&new_set.to_soroban(env), &proof, &true))
         }
+        Ep::GwRotateBypassOlderSet => {
+            let new_set = simple_set(if alt { 33 } else { 32 });
+            let dh = new_set.rotation_data_hash();
+            let proof = s.set.proof(env, &digest(&s.domain, &s.set.hash(), &dh), s.set.full_mask());
+            ok!(s.gw.try_rotate_signers(&new_set.to_soroban(env), &proof, &true))
+        }
         Ep::GasTransferOwnership => ok!(s.gas.try_transfer_ownership(who)),
         Ep::GasUpgrade => ok!(s.gas.try_upgrade(&hash)),
         Ep::GasMigrate => ok!(s.gas.try_migrate(&())),
@@ -307,6 +322,7 @@ fn effect_visible(s: &Sys, ep: Ep) -> Result<(), String> {
         Ep::ItsTransferOwnership => s.its.owner() == *who,
         Ep::TokTransferOwnership | Ep::TokSetAdmin => s.token.owner() == *who,
         Ep::GwRotateBypass => s.gw.epoch() == 2,
+        Ep::GwRotateBypassOlderSet => s.gw.epoch() == 3,
         Ep::GasCollectFees | Ep::GasRefund => t.balance(who) == 1 && t.balance(&s.gas.address) == 999,
         Ep::OpsAddOperator => s.ops.is_operator(who),
         Ep::OpsRemoveOperator => !s.ops.is_operator(who),
@@ -353,10 +369,10 @@ impl Property for C06 {
         "C06"
     }
     fn rule(&self) -> &'static str {
-        "every case = (role-transfer history over the 6 transferable roles of the 5 role-bearing contracts, one of 28 administrative entry points, one of 7 principal classes: current holder, former holder, holder of another role, beneficiary named in the arguments, stranger, nobody, holder-authorised-other-arguments). The full 28x7 matrix with an empty history is enumerated in every run (fixed cases); proptest adds histories of 1-5 transfers (incl. to self, to the other role's holder, and back). Engine: the authorisation trees the call needs are recorded in a twin world with all auths mocked, then replayed in a fresh identical world in which exactly one principal signs the tree recorded for the role holder. Oracle: role model: success iff that principal is the current holder (and signed these exact arguments); refusals must leave the ledger snapshot identical; after an accepted transfer the role query names exactly the successor. non-trivial = principal is not simply the initial holder (principal class != Holder, or history non-empty); distinct by Debug hash"
+        "every case = (role-transfer history over the 6 transferable roles of the 5 role-bearing contracts, one of 29 administrative entry points, one of 7 principal classes: current holder, former holder, holder of another role, beneficiary named in the arguments, stranger, nobody, holder-authorised-other-arguments). The full 29x7 matrix with an empty history is enumerated in every run (fixed cases); proptest adds histories of 1-5 transfers (incl. to self, to the other role's holder, and back). Engine: the authorisation trees the call needs are recorded in a twin world with all auths mocked, then replayed in a fresh identical world in which exactly one principal signs the tree recorded for the role holder. Oracle: role model: success iff that principal is the current holder (and signed these exact arguments); refusals must leave the ledger snapshot identical; after an accepted transfer the role query names exactly the successor. non-trivial = principal is not simply the initial holder (principal class != Holder, or history non-empty); distinct by Debug hash"
     }
     fn fixed_is_exhaustive(&self) -> Option<&'static str> {
-        Some("entry-point x principal matrix (28 x 7) with empty role history enumerated completely; histories sampled")
+        Some("entry-point x principal matrix (29 x 7) with empty role history enumerated completely; histories sampled")
     }
     fn cases(&self, tier: Tier) -> u64 {
         tier.pick(10000, 100000)
